@@ -179,6 +179,7 @@ func (fr *Frame) enterLoop(li *loopInfo, preds []*ssa.BasicBlock) {
 	li.wcells, li.wheap = wcells0, wheap0
 	// established
 	envIn := fr.loopEnv(li, incoming, nil)
+	li.entrySt, li.entryVars = ex.st.clone(), envIn.vars
 	if li.spec != nil {
 		for i, cl := range li.spec.Invariants {
 			fr.oblige(fmt.Sprintf("loop%d", li.ordinal), "established/"+clauseLabel(cl, i), cl.Props, fr.evalBool(cl.Expr, envIn), h.Instrs[0].Pos())
